@@ -312,7 +312,7 @@ int sim_main_run(const Plan &plan) {
   write_file_raw(conf_path, conf);
 
   setlocale(LC_ALL, "C.UTF-8");
-  init_stem(0, 0, "nsim.conf");
+  init_stem((int)plan.optl("debug_level", 0), (unsigned long)plan.optl("trace_flags", 0), "nsim.conf");
   MAIN_OPTION(console_mode) = S.console_mode;
   if (plan.opt.count("timer_flags")) MAIN_OPTION(timer_flags) = (unsigned)plan.optl("timer_flags", 7);
   init_config(MAIN_OPTION(config_file));
